@@ -166,10 +166,43 @@ PROPS = {
         "technique": "Lean 4 proofs over the C09 schedule model (omega after unfolding) + history invariant + differential correspondence per spend path",
         "explanation": "Guard algebra proved on the vesting model; bank send, multi-send, fee payment, DAO fund, governance deposit, delegation by message compared op by op with the model at amounts spendable±1; EVM value transfer, precompile delegation and undelegation monitored with the property's own formula.",
     },
+    "C05": {
+        "id": "C05",
+        "lean_modules": ["HaqqModel.Props.C05"],
+        "level": "proof",
+        "trusted_base": COMMON_TRUST + [
+            "modelled, not verified: go-ethereum's interpreter (that every frame takes a Snapshot on entry and calls RevertToSnapshot on failure, and that all EVM-side writes go through the StateDB methods modelled here) — exercised by the real transactions of the correspondence run, not proved; the Cosmos-side effects of precompile calls are outside the journal model and are covered by the transaction-level monitors only; contract code changes are journalled like nonce changes and are not modelled separately",
+        ],
+        "assumptions": [
+            "revert_restores is stated for spans without a Commit; a stateful precompile's Run() commits on entry, and for spans containing one the property is false of the code (known finding F-C05-a, Lean counterexample flush_then_revert_counterexample)",
+            "every existing account is cached (Sat): caching is observationally neutral (saturate_get)",
+        ],
+        "level_text": "Machine-checked proofs (Lean 4) over a model of x/evm/statedb: every journalled mutation is exactly undone by reverting to the journal length before it, for all sequences of mutations, and Snapshot/RevertToSnapshot returns the identical StateDB (objects, storage, refund, logs, access list, dirty counts); a failed transaction discards its cached context; a kernel-checked counterexample shows that a Commit inside the reverted span (precompile entry) makes EVM-side writes persist. The model is tied to the real StateDB over the application's EVM keeper by an exact differential run, and real signed transactions with nested reverting frames are judged against the property on the application.",
+        "level_note": "Trusted: Lean kernel; correspondence harness; the EVM interpreter's use of snapshots is exercised, not proved; Cosmos-side precompile effects are monitored, not modelled.",
+        "technique": "Lean 4 proof by induction over journal entries and op sequences + differential correspondence with the real StateDB + transaction-level monitors",
+        "explanation": "Journal/snapshot algebra proved for all op sequences; the real statedb.StateDB over app.EvmKeeper is driven with random journals, nested snapshots, reverts to any valid snapshot and mid-span commits and compared state-for-state with the compiled Lean driver; signed Ethereum transactions to a script-interpreting contract exercise nested frames, storage, logs, payments and staking-precompile calls inside reverted frames.",
+    },
+    "C02": {
+        "id": "C02",
+        "lean_modules": ["HaqqModel.Props.C02"],
+        "level": "proof",
+        "trusted_base": COMMON_TRUST + [
+            "modelled, not verified: the bank keeper's mint/burn in EVMKeeper.SetBalance (as supply ± difference), SendCoins between an account and an outside pool (supply-neutral), the auth account store; that the account a precompile moves coins of is its calling contract (hence cached) is an assumption of evm_tx_conserves taken from precompiles/*/tx.go (isCallerDelegator / isContractDelegator / isCallerSender guards)",
+        ],
+        "assumptions": [
+            "an address without an auth account holds no coins of the EVM denomination",
+            "SELFDESTRUCT is outside evm_tx_conserves (it burns explicitly when the beneficiary is the contract itself); the differential run covers it with a beneficiary",
+            "evm_tx_conserves covers mirrored precompile movements; the unmirrored movement of a cached, dirty account (delegation of the origin's coins by grant after the origin paid value) violates the property in the code (known finding F-C02-a, Lean counterexample unmirrored_counterexample)",
+        ],
+        "level_text": "Machine-checked proofs (Lean 4) over the StateDB/keeper model: Commit changes the supply by exactly the sum of the balance changes it writes; after Commit every bank balance equals the EVM's view; for every sequence of value transfers, storage and nonce writes, precompile entries (Commit) and mirrored precompile bank movements the final Commit leaves the total supply unchanged and the bank equal to the EVM's view; a kernel-checked counterexample shows the unmirrored case mints. Tied to the real StateDB, EVM keeper and bank keeper by an exact differential run; real signed transactions are judged against supply conservation and per-account balance equations.",
+        "level_note": "Trusted: Lean kernel; correspondence harness; bank mint/burn/send semantics modelled; which account a precompile moves coins of is taken from the source, not proved.",
+        "technique": "Lean 4 invariant proof (coherence of cache and bank, conserved quantity supply + EVM view − bank) by induction over op sequences + differential correspondence + transaction-level monitors",
+        "explanation": "Exact mint/burn accounting of Commit and the conservation invariant proved for all histories; the real StateDB/bank are driven with transfers, round trips across flushes, mirrored and unmirrored bank movements and compared state-for-state (including total supply) with the compiled Lean driver; supply and balance equations evaluated on real transactions that pay value and call the staking precompile from nested frames.",
+    },
 }
 
 # properties not (yet) claimed, each with a reason; entries disappear as checks are built
 NOT_APPLICABLE = {pid: "check not built yet in this session (planned: see DESIGN.md §5)" for pid in
-                  ["C01", "C02", "C03", "C04", "C05", "C10", "C15", "C16", "C19", "C20"]}
+                  ["C01", "C03", "C04", "C10", "C15", "C16", "C19", "C20"]}
 
 HOOK_COMMITS = []
